@@ -675,10 +675,19 @@ class ExecutorBase:
                                                 H.list_get(st, ra, j) == H.list_get(st, rb, j))))
 
     def compare(self, op, a: SV, b: SV, node=None):
-        if isinstance(op, ast.Is):
-            return self.need_term(a) == self.need_term(b)
-        if isinstance(op, ast.IsNot):
-            return z3.Not(self.need_term(a) == self.need_term(b))
+        if isinstance(op, (ast.Is, ast.IsNot)):
+            same = self.need_term(a) == self.need_term(b)
+            an0 = a.ty.name if a.ty else None
+            bn0 = b.ty.name if b.ty else None
+            if not self.pure and an0 in ("str", "float") and bn0 in ("str", "float"):
+                # Python object identity of two strings / floats is NOT determined by their values (equal strings from different
+                # sources are usually different objects): in code under verification `a is b` may be False although a == b.
+                # (Contract texts use `is` for value identity of terms; None, bools, enum members and object references are unaffected.)
+                ident = z3.Function("py_same_object", Val, Val, z3.BoolSort())
+                ta, tb = self.need_term(a), self.need_term(b)
+                same = z3.If(z3.Or(Val.is_VNone(ta), Val.is_VNone(tb)), same, z3.And(same, ident(ta, tb)))
+                self.assumptions.add("A-IS: `is` between two str/float values in code = equal values AND an unknown same-object predicate")
+            return same if isinstance(op, ast.Is) else z3.Not(same)
         if isinstance(op, ast.Eq):
             return self.eq_terms(a, b)
         if isinstance(op, ast.NotEq):
